@@ -817,6 +817,251 @@ fn kinds(tier: Tier) -> Vec<Kind> {
   v
 }
 
+
+// ------------------------------------------------------------------------------------------------
+// E3: draining a deep backlog with every recv cancelled at its k-th Pending
+// ------------------------------------------------------------------------------------------------
+
+#[derive(Clone, Copy, Debug, PartialEq, Eq)]
+enum DrainRx {
+  Pull,
+  Sub,
+  Dealer,
+  Router,
+  /// REP fed by a DEALER that pipelines [delimiter, body] requests; every request is answered
+  Rep,
+}
+
+#[derive(Clone, Copy, Debug)]
+struct DrainCell {
+  rx: DrainRx,
+  inproc: bool,
+  multipart_call: bool,
+  backlog: usize,
+  /// the peer keeps sending while the application drains (false: everything is queued first)
+  live_traffic: bool,
+  k: usize,
+}
+
+#[derive(Debug, Default, Clone)]
+struct DrainOut {
+  sent: usize,
+  got: Vec<u64>,
+  torn: Option<String>,
+  cancelled: usize,
+  errors: Vec<String>,
+}
+
+fn drain_world(c: DrainCell) -> world::WorldResult<DrainOut> {
+  world::run(1, move || async move {
+    let ctx = Context::new().expect("context");
+    let (ta, tb) = match c.rx {
+      DrainRx::Pull => (SocketType::Push, SocketType::Pull),
+      DrainRx::Sub => (SocketType::Pub, SocketType::Sub),
+      DrainRx::Dealer => (SocketType::Dealer, SocketType::Dealer),
+      DrainRx::Router => (SocketType::Dealer, SocketType::Router),
+      DrainRx::Rep => (SocketType::Dealer, SocketType::Rep),
+    };
+    let a = stack::mk(&ctx, ta, &[(o::SNDTIMEO, 500), (o::SNDHWM, 5000), (o::RCVHWM, 5000), (o::LINGER, 0)]).await;
+    let b = stack::mk(&ctx, tb, &[(o::RCVTIMEO, 60), (o::RCVHWM, 5000), (o::SNDHWM, 5000), (o::SNDTIMEO, 200), (o::LINGER, 0)]).await;
+    if c.rx == DrainRx::Sub {
+      b.set_option(o::SUBSCRIBE, &b""[..]).await.unwrap();
+    }
+    let mut out = DrainOut::default();
+    let link = if c.inproc {
+      b.bind("inproc://c09-drain").await.expect("bind");
+      a.connect("inproc://c09-drain").await.expect("connect");
+      None
+    } else {
+      Some(stack::link_pair(&a, &b, 1 << 16).await)
+    };
+    settle_n(6).await;
+    let send_one = |a: Socket, i: u64, rep: bool| async move {
+      let mut body = format!("d{:08}", i).into_bytes();
+      body.resize(24, b'.');
+      if rep {
+        // (rzmq's DEALER prepends the empty delimiter itself)
+        a.send(msg(&body, false)).await
+      } else if i % 5 == 3 {
+        // some messages are multipart so that a torn message would show
+        a.send_multipart(vec![msg(&body, true), msg(b"tail", false)]).await
+      } else {
+        a.send(msg(&body, false)).await
+      }
+    };
+    let is_rep = c.rx == DrainRx::Rep;
+    let pre = if c.live_traffic { c.backlog / 2 } else { c.backlog };
+    for i in 0..pre as u64 {
+      if send_one(a.clone(), i, is_rep).await.is_ok() {
+        out.sent += 1;
+      }
+      if i % 64 == 63 {
+        settle_n(1).await;
+      }
+    }
+    settle_n(8).await;
+    let feeder = if c.live_traffic {
+      let a2 = a.clone();
+      let (from, to) = (pre as u64, c.backlog as u64);
+      Some(tokio::spawn(async move {
+        let mut n = 0usize;
+        for i in from..to {
+          if send_one(a2.clone(), i, is_rep).await.is_ok() {
+            n += 1;
+          }
+          if i % 7 == 0 {
+            tokio::task::yield_now().await;
+          }
+        }
+        n
+      }))
+    } else {
+      None
+    };
+    // the application: every receive call is dropped at its k-th Pending and simply issued again
+    let mut idle = 0;
+    let mut guard = 0usize;
+    while idle < 3 && guard < 40 * c.backlog + 1000 {
+      guard += 1;
+      let r: Option<Result<Vec<Msg>, rzmq::ZmqError>> = if c.multipart_call {
+        CancelAt::new(async { b.recv_multipart().await.map(|v| v.into_iter().collect::<Vec<Msg>>()) }, c.k).await
+      } else {
+        // frame by frame: a whole message is assembled from consecutive recv() calls, each of them cancellable
+        CancelAt::new(async { b.recv().await.map(|m| vec![m]) }, c.k).await
+      };
+      match r {
+        None => {
+          out.cancelled += 1;
+          // a dropped call that was parked on an empty queue: let the world move
+          tokio::time::sleep(std::time::Duration::from_millis(1)).await;
+          if out.cancelled > 20 * c.backlog + 500 {
+            break;
+          }
+        }
+        Some(Ok(mut frames)) => {
+          idle = 0;
+          if !c.multipart_call {
+            while frames.last().map(|m| m.is_more()).unwrap_or(false) {
+              match b.recv().await {
+                Ok(m) => frames.push(m),
+                Err(e) => {
+                  out.torn = Some(format!("message ends with MORE and the next recv() fails: {}", e));
+                  break;
+                }
+              }
+            }
+          }
+          let mut fr: Vec<Vec<u8>> = frames.iter().map(|m| m.data().unwrap_or(&[]).to_vec()).collect();
+          if c.rx == DrainRx::Router && !fr.is_empty() {
+            fr.remove(0);
+          }
+          let body = fr.first().cloned().unwrap_or_default();
+          let seq = std::str::from_utf8(&body).ok().and_then(|t| t.get(1..9)).and_then(|t| t.parse::<u64>().ok());
+          match seq {
+            Some(i) if body.first() == Some(&b'd') => {
+              let want_tail = !is_rep && i % 5 == 3;
+              let ok_shape = if want_tail { fr.len() == 2 && fr[1] == b"tail" } else { fr.len() == 1 };
+              if !ok_shape && out.torn.is_none() {
+                out.torn = Some(format!("message {} arrived as {} frames", i, fr.len()));
+              }
+              out.got.push(i);
+            }
+            _ => {
+              if out.torn.is_none() {
+                out.torn = Some(format!("unexpected message of {} frames, first {:?}", fr.len(), String::from_utf8_lossy(&body)));
+              }
+            }
+          }
+          if is_rep {
+            if let Err(e) = b.send(msg(b"ok", false)).await {
+              out.errors.push(format!("REP send: {}", e));
+            }
+          }
+        }
+        Some(Err(e)) => {
+          if stack::is_would_block(&e) {
+            idle += 1;
+          } else {
+            out.errors.push(e.to_string());
+            idle += 1;
+          }
+        }
+      }
+    }
+    if let Some(f) = feeder {
+      out.sent += tokio::time::timeout(std::time::Duration::from_secs(30), f).await.ok().and_then(|r| r.ok()).unwrap_or(0);
+    }
+    drop(link);
+    let _ = tokio::time::timeout(std::time::Duration::from_secs(30), ctx.term()).await;
+    out
+  })
+}
+
+fn drain_cells(tier: Tier) -> Vec<DrainCell> {
+  let mut v = vec![];
+  for rx in [DrainRx::Pull, DrainRx::Sub, DrainRx::Dealer, DrainRx::Router, DrainRx::Rep] {
+    for inproc in [false, true] {
+      for multipart_call in [false, true] {
+        for backlog in if tier == Tier::Thorough { vec![3usize, 150, 700, 2100] } else { vec![150usize, 700] } {
+          for live_traffic in [false, true] {
+            for k in if tier == Tier::Thorough { vec![1usize, 2, 3, 5] } else { vec![1usize, 2] } {
+              if tier == Tier::Quick && backlog == 700 && (k != 1 || live_traffic) {
+                continue;
+              }
+              if matches!(rx, DrainRx::Rep | DrainRx::Dealer) && inproc {
+                continue; // rzmq's inproc accepts only PUSH-PULL, PUB-SUB, REQ-REP, DEALER-ROUTER (and a REQ cannot pipeline)
+              }
+              v.push(DrainCell { rx, inproc, multipart_call, backlog, live_traffic, k });
+            }
+          }
+        }
+      }
+    }
+  }
+  v
+}
+
+fn drain_sub(tier: Tier) -> Sub {
+  let mut sub = Sub::new("backlog-drain-cancellation", "E3");
+  sub.rule = "case = one world: a peer queues N numbered messages (every fifth one multipart) for a PULL / SUB / DEALER / ROUTER / REP socket, all before the application starts or half of them while it drains; the application drains with recv() or recv_multipart(), and EVERY call is dropped at its k-th Pending and issued again; non-trivial = all N were accepted for sending; oracle: the application sees exactly 0..N in order, whole, once; no call fails with anything but a timeout".into();
+  let list = drain_cells(tier);
+  sub.bounds = json!({"cells": list.len(), "backlogs": if tier == Tier::Thorough { vec![3, 150, 700, 2100] } else { vec![150, 700] }, "k": if tier == Tier::Thorough { vec![1, 2, 3, 5] } else { vec![1, 2] }});
+  par::enumerate(&mut sub, list.len(), |i| {
+    let c = list[i];
+    let r = drain_world(c);
+    let wit = json!({"explorer": "e3", "sub": "backlog-drain-cancellation", "index": i, "cell": format!("{:?}", c)});
+    let class = format!("{:?}:{}:{}", c.rx, if c.inproc { "inproc" } else { "zmtp" }, if c.multipart_call { "recv_multipart" } else { "recv" });
+    let mut case = Case { steps: c.backlog as u64, ..Default::default() };
+    for p in &r.panics {
+      case.violations.push(("panic".into(), p.rsplit(" @ ").next().map(mc_core::short_loc).unwrap_or_default(), p.clone(), wit.clone()));
+    }
+    if let Some(o) = r.result {
+      case.nontrivial = o.sent == c.backlog;
+      case.outcome = mc_core::digest(&(o.got.len() == o.sent, o.cancelled > 0, o.torn.is_some(), o.errors.len()));
+      case.state = mc_core::digest(&(format!("{:?}", c), o.cancelled));
+      let want: Vec<u64> = (0..o.sent as u64).collect();
+      if o.got != want {
+        let missing: Vec<u64> = want.iter().filter(|i| !o.got.contains(i)).cloned().take(12).collect();
+        let mut seen = std::collections::HashSet::new();
+        let dups: Vec<u64> = o.got.iter().filter(|i| !seen.insert(**i)).cloned().take(12).collect();
+        let clause = if !dups.is_empty() { "message-delivered-twice" } else if !missing.is_empty() { "queued-message-lost" } else { "messages-reordered" };
+        case.violations.push((clause.into(), class.clone(), format!("{} sent, {} received with every call dropped at its Pending #{} ({} calls dropped): missing {:?}, duplicated {:?}", o.sent, o.got.len(), c.k, o.cancelled, missing, dups), wit.clone()));
+      }
+      if let Some(t) = &o.torn {
+        case.violations.push(("partial-message-delivered".into(), class.clone(), t.clone(), wit.clone()));
+      }
+      if let Some(e) = o.errors.first() {
+        case.violations.push(("call-fails-after-cancellation".into(), class.clone(), e.clone(), wit.clone()));
+      }
+      if i % 17 == 0 {
+        case.sample = Some(json!({"cell": format!("{:?}", c), "sent": o.sent, "received": o.got.len(), "calls_dropped": o.cancelled}));
+      }
+    }
+    case
+  });
+  sub
+}
+
 pub fn run(tier: Tier) -> Report {
   let mut rep = Report::new("C09", tier, "model_checking");
   rep.assume("cancellation = dropping the API future at one of its Pending points; every such point is tried (k = 1, 2, ... until the operation completes before its k-th Pending)");
@@ -876,6 +1121,7 @@ pub fn run(tier: Tier) -> Report {
     sub.caps_hit.push(format!("some situation still had Pending points after k={}", max_k));
   }
   rep.add(sub);
+  rep.add(drain_sub(tier));
   rep
 }
 
